@@ -259,6 +259,70 @@ def cmpRunProgram (lawful : Bool) (c : Case) (modName : String) : String × List
      | none => [])
   (body, exp)
 
+/-! ### directed probes: from an L1 disagreement on the exhaustive matrix to a compiled program -/
+
+def singleFieldItemW (shape : Nat) (attrs : List Attr) (extra : List Attr) : Item :=
+  let f (named : Bool) : Field := { attrs, name := if named then some "a" else none, ty := Ty.simple "W" }
+  match shape with
+  | 0 => .struct_ { attrs := extra, name := "X", fields := { kind := .unnamed, fields := [f false] } }
+  | 1 => .struct_ { attrs := extra, name := "X", fields := { kind := .named, fields := [f true] } }
+  | 2 => .enum_ { attrs := extra, name := "X", variants := [
+            { name := "A", fields := { kind := .unit } },
+            { name := "B", fields := { kind := .unnamed, fields := [f false] } }] }
+  | _ => .enum_ { attrs := extra, name := "X", variants := [
+            { name := "B", fields := { kind := .named, fields := [f true] } },
+            { name := "A", fields := { kind := .unit } }] }
+
+/-- the case `cmp1/<idx>` (same decoding as `cmp1Case`) over the field type `W` of the L2 prelude, with the
+unlawful (C01 / C06) or the lawful (C02) `key` / `by` expressions -/
+def probeCase (lawful : Bool) (masks : List Nat) (idx : Nat) : Case × List String :=
+  let combo := idx % 3136
+  let r := idx / 3136
+  let shape := r % 4
+  let r := r / 4
+  let ep := r % 2
+  let mask := masks.getD ((r / 2) % masks.length) 31
+  let traits := traitSubset mask
+  let args := argsOfTraits traits
+  let kinds := (Kinds.new true).extend (traits.filterMap fun t => (Kind.fromStr t).map fun k => { kind := k })
+  let attrs := (if lawful then cmpAttrsOfW lawKeyExpr lawByExpr combo else cmpAttrsOf combo).1.filter
+    fun a => ep == 1 || kinds.isMatch a
+  let c : Case := if ep == 0 then { id := s!"probe/{idx}", entry := .attr args, item := singleFieldItemW shape attrs [] }
+    else { id := s!"probe/{idx}", entry := .derive, item := singleFieldItemW shape attrs [.deriveEx args] }
+  (c, traits)
+
+/-- like `cmpRunProgram`, but the loops follow the *requested* traits (the implementation decides what exists);
+expectations only for the impls the model has -/
+def probeProgram (lawful : Bool) (c : Case) (traits : List String) (modName : String) : String × List String :=
+  let vals := valuesOf c.item
+  let impls := cmpImplsOf c
+  let ops : List CmpOp := CmpOp.all.filter fun t => traits.contains t.str
+  let has (t : CmpOp) := ops.contains t
+  let σ : Env Nat String := fun _ => if lawful then lawSem else wSem
+  let vs := vals.map L2Val.toVal
+  let body :=
+    s!"pub mod {modName} \{ use super::*;\n{rustItem c}\n{supertraitStubs ops}pub fn run() \{\n let vs: Vec<X> = vec![{", ".intercalate (vals.map (·.expr))}];\n" ++
+    (if has .partialEq then s!" for a in &vs \{ let mut s = String::new(); for b in &vs \{ s.push(if a == b \{ '1' } else \{ '0' }); } println!(\"{modName} eq \{}\", s); }\n" else "") ++
+    (if has .partialOrd then s!" for a in &vs \{ let mut s = String::new(); for b in &vs \{ s.push(oc(a.partial_cmp(b))); } println!(\"{modName} pcmp \{}\", s); }\n" else "") ++
+    (if has .ord then s!" for a in &vs \{ let mut s = String::new(); for b in &vs \{ s.push(oc(Some(Ord::cmp(a, b)))); } println!(\"{modName} cmp \{}\", s); }\n" else "") ++
+    (if has .hash then s!" for a in &vs \{ let mut h = Rec(Vec::new()); a.hash(&mut h); println!(\"{modName} hash \{}\", h.0.join(\",\")); }\n" else "") ++
+    "}\n}\n"
+  let find (t : CmpOp) : Option CmpImpl := (impls.find? (·.1 == t)).map (·.2)
+  let exp : List String :=
+    (match find .partialEq with
+     | some ci => vs.map fun a => s!"{modName} eq {String.ofList (vs.map fun b => if evalEq ci σ a b then '1' else '0')}"
+     | none => []) ++
+    (match find .partialOrd with
+     | some ci => vs.map fun a => s!"{modName} pcmp {String.ofList (vs.map fun b => ocChar (evalPartialCmp ci σ a b))}"
+     | none => []) ++
+    (match find .ord with
+     | some ci => vs.map fun a => s!"{modName} cmp {String.ofList (vs.map fun b => ocChar (some (evalCmp ci σ a b)))}"
+     | none => []) ++
+    (match find .hash with
+     | some ci => vs.map fun a => s!"{modName} hash {",".intercalate (evalHash ci σ a)}"
+     | none => [])
+  (body, exp)
+
 /-- what a case exercises, for the evidence file -/
 def cmpRunStats (c : Case) : List String :=
   let fields : List Field := match c.item with
